@@ -100,7 +100,10 @@ class SetterInterp:
         self.inst, self.optname = ps[0]["name"], ps[1]["name"]
         env = {self.optname: optval}
         saved = (self.inst, self.optname)
+        saved_locals = getattr(self, "locals", {})
+        self.locals = {}        # locals that hold a copy of the field: decl id -> transfer of the field's entry value
         x, _ = self._block(self.prog.body(f), Xfer(), env, fname)
+        self.locals = saved_locals
         self.inst, self.optname = saved
         self.stack.pop()
         self.summ[key] = x
@@ -152,6 +155,9 @@ class SetterInterp:
                  "ParenExpr", "CStyleCastExpr"):
             return self._expr(n, x, env, fname), "next"
         if k == "DeclStmt":
+            for vd in ks:
+                if vd.get("kind") == "VarDecl" and kids(vd) and self._is_field(strip(kids(vd)[-1], casts=True)):
+                    self.locals[vd["id"]] = x           # `uint8_t opt = al->assembly_opt;`
             return x, "next"
         if k in ("CaseStmt", "DefaultStmt"):
             # label inside a compound reached by fallthrough
@@ -205,9 +211,35 @@ class SetterInterp:
         ks = kids(n)
         if k in ("BinaryOperator", "CompoundAssignOperator") and n.get("opcode") in ("=", "|=", "&=", "^=", "+=", "-="):
             lhs = strip(ks[0])
+            lid = lhs.get("referencedDecl", {}).get("id") if lhs.get("kind") == "DeclRefExpr" else None
+            if lid in self.locals:
+                # the local copy is adjusted like the field would be
+                op = n.get("opcode")
+                if op == "=" and self._is_field(strip(ks[1], casts=True)):
+                    self.locals[lid] = x
+                    return x
+                try:
+                    c = ConstEval(self.prog, env).eval(ks[1]) & FULL
+                except NotConstant:
+                    c = None
+                cur = self.locals[lid]
+                if c is None or op not in ("=", "|=", "&=", "^="):
+                    self.locals[lid] = cur.with_top()
+                elif op == "=":
+                    self.locals[lid] = Xfer(0, c)
+                elif op == "|=":
+                    self.locals[lid] = cur.then(Xfer(FULL, c))
+                elif op == "&=":
+                    self.locals[lid] = cur.then(Xfer(c, 0))
+                else:
+                    self.locals[lid] = cur.then(Xfer.xor(c))
+                return x
             if self._is_field(lhs):
                 self.sites.append((fname, loc_str(n), expr_str(n)))
                 op = n.get("opcode")
+                r0 = strip(ks[1], casts=True)
+                if op == "=" and r0.get("kind") == "DeclRefExpr" and r0.get("referencedDecl", {}).get("id") in self.locals:
+                    return self.locals[r0["referencedDecl"]["id"]]      # the adjusted copy is stored back
                 if op == "=":
                     sym = self._sym(ks[1], env)
                     if sym is None:
